@@ -17,6 +17,7 @@ def dtStepWF : Step → Bool
   | .monthText _ => true
   | .dayText _ => true
   | .era => true
+  | .eraC _ => true
   | .calendar => true
   | .frac count scale _ => decide (count ≤ 9) && decide (scale = 9)
   | .dotFrac count scale _ => decide (count ≤ 9) && decide (scale = 9)
@@ -72,6 +73,8 @@ def stepSets : Step → Option Slot
   | .monthText _ => some .monthText
   | .dayText _ => some .dayOfWeek
   | .era => some .era
+  | .eraC _ => some .era
+  | .calendar => some .calendar
   | _ => none
 
 def plainSteps : List Seg → List Step
@@ -207,5 +210,16 @@ def eraOK (cu : Culture) : Bool :=
 
 def eraDanger (cu : Culture) : List Char :=
   (eraScan cu.eraPrimaryBCE 0 (eraCands cu)).getD [] ++ (eraScan cu.eraPrimaryCE 1 (eraCands cu)).getD []
+
+/-- the same for the only era of the single-era calendar `cal`: its primary name is read back as that era -/
+def eraCandsC (cu : Culture) (cal : Nat) : List (Int × Text) :=
+  (eraNamesOf cu (eraIdOfCal cal)).map (fun n => (eraIdOfCal cal, n))
+
+def eraCOK (cu : Culture) (cal : Nat) : Bool :=
+  (eraScan (eraPrimaryOf cu (eraIdOfCal cal)) (eraIdOfCal cal) (eraCandsC cu cal)).isSome &&
+    decide (eraPrimaryOf cu (eraIdOfCal cal) ≠ [])
+
+def eraCDanger (cu : Culture) (cal : Nat) : List Char :=
+  (eraScan (eraPrimaryOf cu (eraIdOfCal cal)) (eraIdOfCal cal) (eraCandsC cu cal)).getD []
 
 end Pyoda.Text
